@@ -1,7 +1,9 @@
 package zsim
 
 import (
+	"context"
 	"fmt"
+	"sync"
 	"time"
 )
 
@@ -67,6 +69,15 @@ func genC04(seed uint64, tier string) *Plan {
 			op.N2 = 1
 			op.N = int64(r.Intn(4))
 			op.B = r.Bool(0.9)
+		}
+		if op.N2 == 0 && r.Bool(0.2) {
+			// run it next to a second query on the same table (one shared
+			// scan), both with deadlines that pass while the scan is fed to slow
+			// consumers: queries that fail must not change anything either
+			op.N2 = 2
+			op.N = PickOne(r, []int64{1, int64(time.Millisecond), int64(3 * time.Millisecond), int64(8 * time.Millisecond)})
+			op.Dt = PickOne(r, insDts)
+			op.Strs = []string{fmt.Sprint(PickOne(r, []int64{int64(2 * time.Millisecond), int64(5 * time.Millisecond), int64(20 * time.Millisecond)}))}
 		}
 		p.Ops = append(p.Ops, op)
 	}
@@ -165,6 +176,25 @@ func execC04(e *Env, p *Plan) error {
 			e.mu.Lock()
 			e.OnPoint = nil
 			e.mu.Unlock()
+		}
+		if op.N2 == 2 {
+			slow := func(i int, row *QRow) bool { time.Sleep(time.Millisecond); return true }
+			var d2 int64
+			fmt.Sscan(op.Strs[0], &d2)
+			ctx1, cancel1 := context.WithTimeout(context.Background(), time.Duration(op.N))
+			ctx2, cancel2 := context.WithTimeout(context.Background(), time.Duration(d2))
+			p1, p2 := n.Prepare(op.S, op.B), n.Prepare("SELECT * FROM "+op.S2, op.B)
+			var wg sync.WaitGroup
+			wg.Add(1)
+			go func() { defer wg.Done(); p2.Run(QOpts{Ctx: ctx2, OnRow: slow}) }()
+			q = p1.Run(QOpts{Ctx: ctx1, OnRow: slow})
+			wg.Wait()
+			cancel1()
+			cancel2()
+			e.Count("probe.deadline-pair")
+			if q.Err != nil {
+				e.Count("probe.deadline-pair-failed")
+			}
 		}
 		if q == nil {
 			q = n.Query(op.S, QOpts{IncludeMem: op.B})
